@@ -59,6 +59,10 @@
 /// Common traits and impl.
 pub mod common;
 
+/// Verification hooks, only compiled with the `verif` feature.
+#[cfg(feature = "verif")]
+pub mod verif;
+
 /// Configuration for `EventLoops`.
 #[allow(missing_docs)]
 pub mod config;
